@@ -72,6 +72,7 @@ import XotModel.Lemmas.ScopeName
 import XotModel.Lemmas.XmlName
 import XotModel.Lemmas.ReachScope
 import XotModel.Lemmas.ReachHist
+import XotModel.Props.C04
 
 namespace XotModel.Props
 open XotModel
@@ -871,5 +872,92 @@ example : unresolvedNamespaces Reach.exEnv Reach.exRoot.erase [] = some [] ∧
 example : scopeSpec Reach.exRootA.erase [] 3 = some 3 :=
   ((C09_reachable_inherited_iff Reach.exEnv (Reach.exCalls.take 10) (Reach.exCalls_take_wellKinded 10)
     Reach.exRootA Reach.exRootA_mem [2] (.node (.element 1) [.node (.text ['x']) []]) (by decide) Reach.exEnv [(3, 3)] (by decide) 3 3).mp (by decide)).2.1
+
+end XotModel.Props
+
+/-! # ================================================================================================
+    # REACHABLE TREES, histories that PARSE and edit (branch wt-reachfull)
+    # ================================================================================================
+
+  The restatements above quantify over extended API histories (`Forest.XCall` on a `Store`).  Model/FparseHist.lean
+  has the history type with BOTH kinds of step — `PCall` = an extended API call, or `parse mode text` of an
+  ARBITRARY text (reference tokenizer + builder on the tables of the store; an accepted tree is installed,
+  a rejected one leaves forest and index alone) — on `PStore`; Props/C04.lean proves the invariant for every
+  such history from `Xot::new()` (`C04_reach_full`) and the bridge `C04_reachable_hypotheses_full`
+  (`UniqueDeclsBelow` of every subtree of every tree of every such store).  The same restatements over them;
+  `env'` is arbitrary, in particular the tables of the store after the history (parses intern names). -/
+
+namespace XotModel.Props
+open XotModel
+
+/-- ⟦C09_reachable_unique_full⟧ No element of any subtree of any parentless tree of any store a full history
+    reaches — parsed documents, whatever was done to them afterwards, included — declares a prefix twice. -/
+theorem C09_reachable_unique_full (env : Env) (cs : List PCall) (hw : ∀ c ∈ cs, c.wellKinded) :
+    ∀ r ∈ ((PStore.init env).run cs).forest.roots, ∀ (path : Path) (sub : Tree),
+      r.erase.at? path = some sub → UniqueDeclsBelow sub :=
+  fun r hr => (C04_reachable_hypotheses_full env cs hw r hr).2.2.2.1
+
+/-- ⟦C09_reachable_unresolved_full⟧ **`unresolved_namespaces(node)` for every node of every tree of every store a
+    history of parses and API calls reaches**: the statement of `C09_reachable_unresolved`. -/
+theorem C09_reachable_unresolved_full (env : Env) (cs : List PCall) (hw : ∀ c ∈ cs, c.wellKinded) :
+    ∀ r ∈ ((PStore.init env).run cs).forest.roots, ∀ (path : Path) (sub : Tree),
+      r.erase.at? path = some sub → ∀ (env' : Env) (l : List Nat),
+      unresolvedNamespaces env' r.erase path = some l → ∀ ns : Nat,
+      (ns ∈ l ↔ ∃ q chain e, sub.ancestorsOrSelf q = some chain ∧ sub.at? q = some e ∧
+        NeedsNs env' (scopeOf (elementFrames chain)) e ns) :=
+  fun r hr path sub hs env' l hl ns =>
+    C09_unresolved env' r.erase path sub l hs (C09_reachable_unique_full env cs hw r hr path sub hs) hl ns
+
+/-- ⟦C09_reachable_inherited_iff_full⟧ **`inherited_prefixes(node)` for every node of every tree of every store a
+    history of parses and API calls reaches**: the statement of `C09_reachable_inherited_iff`. -/
+theorem C09_reachable_inherited_iff_full (env : Env) (cs : List PCall) (hw : ∀ c ∈ cs, c.wellKinded) :
+    ∀ r ∈ ((PStore.init env).run cs).forest.roots, ∀ (path : Path) (sub : Tree),
+      r.erase.at? path = some sub → ∀ (env' : Env) (l : List (Nat × Nat)),
+      inheritedPrefixes env' r.erase path = some l → ∀ p ns : Nat,
+      ((p, ns) ∈ l ↔
+        path ≠ [] ∧ scopeSpec r.erase path.dropLast p = some ns ∧
+          ∃ q chain e, sub.ancestorsOrSelf q = some chain ∧ sub.at? q = some e ∧
+            NeedsNs env' (scopeOf (elementFrames chain)) e ns) :=
+  fun r hr path sub hs env' l hl p ns =>
+    C09_inherited_iff env' r.erase path sub l hs (C09_reachable_unique_full env cs hw r hr path sub hs) hl p ns
+
+/-! ### Non-vacuity: parse, edit, ask (`fullCalls` / `fullCallsB` of Props/C04.lean, from the tables of `Xot::new()`)
+
+  `c09FullCalls` = `fullCallsB` without its last step (the repair): PARSE `<r xmlns:p="urn:a"><p:a>t</p:a></r>`,
+  REMOVE the declaration of `p`, create a new element `{urn:a}a`, append it, give it the attribute `p:a="v"`,
+  parse a REJECTED text.  Namespace 2 (`urn:a`) now has no prefix: `unresolved_namespaces` reports it three
+  times at the document (two element names, one attribute name), twice at the new element, which inherits
+  nothing.  After the repair (`fullCallsB`) nothing is unresolved; in `fullCalls` (declaration kept) the new
+  element inherits `p ↦ urn:a`, bound in its parent's scope. -/
+
+def c09FullCalls : List PCall := fullCallsB.dropLast
+def c09FullRoot : HTree :=
+  .node 0 .document [.node 1 (.element 2) [
+    .node 3 (.element 3) [.node 4 (.text ['t']) []],
+    .node 5 (.element 3) [.node 6 (.attribute 3 ['v']) []]]]
+def c09FullEnv : Env := ((PStore.init Env.fresh).run c09FullCalls).env
+theorem c09FullCalls_wellKinded : ∀ c ∈ c09FullCalls, c.wellKinded := by decide
+theorem c09FullRoot_mem : c09FullRoot ∈ ((PStore.init Env.fresh).run c09FullCalls).forest.roots := by
+  have : ((PStore.init Env.fresh).run c09FullCalls).forest.roots = [c09FullRoot] := by decide +kernel
+  rw [this]; exact List.mem_singleton.mpr rfl
+
+example : c09FullCalls ++ [.api (.createMissingPrefixes 0)] = fullCallsB := rfl
+example : c09FullEnv.names =
+    [(['s', 'p', 'a', 'c', 'e'], 1), (['i', 'd'], 1), (['r'], 0), (['a'], 2), (['a'], 0), (['b'], 0)] := by
+  decide +kernel
+example : unresolvedNamespaces c09FullEnv c09FullRoot.erase [] = some [2, 2, 2] ∧
+    unresolvedNamespaces c09FullEnv c09FullRoot.erase [0, 1] = some [2, 2] ∧
+    inheritedPrefixes c09FullEnv c09FullRoot.erase [0, 1] = some [] := by decide +kernel
+example : ∃ q chain e, c09FullRoot.erase.ancestorsOrSelf q = some chain ∧ c09FullRoot.erase.at? q = some e ∧
+    NeedsNs c09FullEnv (scopeOf (elementFrames chain)) e 2 :=
+  (C09_reachable_unresolved_full Env.fresh c09FullCalls c09FullCalls_wellKinded
+    c09FullRoot c09FullRoot_mem [] _ rfl c09FullEnv [2, 2, 2] (by decide +kernel) 2).mp (by decide)
+example : unresolvedNamespaces ((PStore.init Env.fresh).run fullCallsB).env fullRootB.erase [] = some [] ∧
+    inheritedPrefixes ((PStore.init Env.fresh).run fullCalls).env fullRoot.erase [0, 2] = some [(2, 2)] := by
+  decide +kernel
+example : scopeSpec fullRoot.erase [0] 2 = some 2 :=
+  ((C09_reachable_inherited_iff_full Env.fresh fullCalls fullCalls_wellKinded fullRoot fullRoot_mem [0, 2]
+    (.node (.element 3) [.node (.attribute 3 ['v']) []]) (by decide) ((PStore.init Env.fresh).run fullCalls).env
+    [(2, 2)] (by decide +kernel) 2 2).mp (by decide)).2.1
 
 end XotModel.Props
